@@ -25,7 +25,9 @@ const NOTYET_CELLS: u64 = IMPOSTOR_CELLS;
 const GARBAGE_CELLS: u64 = IMPOSTOR_CELLS;
 /// an https proxy and an origin of the same name, the proxy's certificate good, the origin's not: 3 x flags
 const SAMENAME_CELLS: u64 = 12;
-pub const CELLS: u64 = MATRIX + TUNNEL_CELLS + IMPOSTOR_CELLS + NOTYET_CELLS + GARBAGE_CELLS + SAMENAME_CELLS;
+/// host names with a leading dot, a trailing dot or an empty label x hostname waiver
+const ODDNAME_CELLS: u64 = 12;
+pub const CELLS: u64 = MATRIX + TUNNEL_CELLS + IMPOSTOR_CELLS + NOTYET_CELLS + GARBAGE_CELLS + SAMENAME_CELLS + ODDNAME_CELLS;
 
 #[derive(Clone, Copy, Debug, PartialEq, Eq)]
 enum Chain {
@@ -229,6 +231,65 @@ fn tunnel_run(ctx: &RunCtx, cell: u64, outer: &'static str, inner: &'static str,
     RunReport { verdict, shape: tag.clone(), nontrivial: true, stats, sched_tape: out.sched_tape, describe: if ctx.describe { format!("tunnel cell {}: {} expect_ok={}", cell, tag, want_ok) } else { String::new() } }
 }
 
+/// Host names that are not quite names: a leading dot, a trailing dot, an empty label.  The certificate (good
+/// chain, CA added) names `secure.test`, `a.test` ... - never the URL's host as written, so with both flags off
+/// nobody may be accepted under these names; a name check that treats ".test" as "anything under test" would.
+fn odd_name_cell(g: &mut G, ctx: &RunCtx, cell: u64) -> RunReport {
+    let _ = g;
+    let host = [".test", ".secure.test", "secure..test", "test", ".a.test", "x.secure.test"][(cell % 6) as usize];
+    let accept_hosts = (cell / 6) % 2 == 1;
+    let sim = Sim::new(ctx.sim_config());
+    let ip: IpAddr = "10.0.0.5".parse().unwrap();
+    sim.add_host(host, vec![ip]);
+    let seen = Arc::new(Mutex::new(Seen::default()));
+    let log = Arc::new(Mutex::new(TlsLog::default()));
+    {
+        let (seen, log) = (seen.clone(), log.clone());
+        sim.add_listener(
+            ip,
+            443,
+            ConnectBehaviour::Accept { latency_ns: NS_PER_MS },
+            Some(Box::new(move |i| {
+                let http = HttpPeer::new(Arc::new(|_r, _c| ok_script("secret")), seen.clone());
+                Box::new(TlsPeer::new("good", Box::new(http), log.clone(), i.conn))
+            })),
+        );
+    }
+    let url = format!("https://{}/private", host);
+    let url2 = url.clone();
+    let out = sim.run(move || {
+        let rb = match attohttpc::RequestBuilder::try_new(attohttpc::Method::GET, &url2) {
+            Ok(rb) => rb,
+            Err(e) => return Err(format!("url:{}", err_kind(&e))),
+        };
+        let mut rb = rb.proxy_settings(attohttpc::ProxySettings::builder().build()).add_root_certificate(cert_of(tlspeer::CA_PEM));
+        if accept_hosts {
+            rb = rb.danger_accept_invalid_hostnames(true);
+        }
+        match rb.send() {
+            Ok(r) => Ok(r.status().as_u16()),
+            Err(e) => Err(err_kind(&e)),
+        }
+    });
+    let mut stats = Stats::default();
+    stats.absorb(&out.history);
+    let plain_in: usize = log.lock().unwrap().sessions.iter().map(|s| s.plaintext_in).sum();
+    let tag = format!("OddName:{}:hosts={}", host, accept_hosts);
+    let verdict = match &out.result {
+        None => violation("hang", "torn down"),
+        Some(Err(m)) => violation("panic", m.clone()),
+        // with the name check waived the chain is good: either outcome (some of these are not names a TLS library takes)
+        Some(Ok(_)) if accept_hosts => Verdict::Pass,
+        Some(Ok(Ok(st))) => violation(
+            format!("unauthenticated-peer-accepted:OddName:{}", host),
+            format!("https://{}/ was answered with status {} by a peer whose certificate names secure.test, a.test, b.test, c.test, proxy.test, origin.test and two addresses - not {:?} ({})", host, st, host, tag),
+        ),
+        Some(Ok(Err(_))) if plain_in > 0 => violation(format!("request-sent-to-unauthenticated-peer:OddName:{}", host), format!("{} plaintext bytes reached the peer ({})", plain_in, tag)),
+        Some(Ok(Err(_))) => Verdict::Pass,
+    };
+    RunReport { verdict, shape: tag.clone(), nontrivial: true, stats, sched_tape: out.sched_tape, describe: if ctx.describe { format!("odd name cell {}: {} result={:?} plaintext_in={}", cell, tag, out.result, plain_in) } else { String::new() } }
+}
+
 /// The first TLS exchange of the process is always the same one: a session that adds the fixtures' CA as a
 /// root (both flags off) talks to a peer with a good certificate.  Anything the library keeps for the whole
 /// process and fills on first use is thereby filled by a handshaker *with* an extra root - the cells that
@@ -267,6 +328,9 @@ pub fn scenario(g: &mut G, ctx: &RunCtx) -> RunReport {
         // the matrix cell with the same name / flags / root / route, chain to the added root, flags on the
         // session - presented by somebody who does not hold the certificate's key
         let mut i = cell - MATRIX - TUNNEL_CELLS;
+        if i >= 3 * IMPOSTOR_CELLS + SAMENAME_CELLS {
+            return odd_name_cell(g, ctx, i - 3 * IMPOSTOR_CELLS - SAMENAME_CELLS);
+        }
         if i >= 3 * IMPOSTOR_CELLS {
             return same_name_tunnel_cell(g, ctx, i - 3 * IMPOSTOR_CELLS);
         }
